@@ -47,8 +47,10 @@ CHECKS = {
         "deadline": {"quick": 300, "thorough": 1500},
         "stages": [
             {"name": "views", "harness": "c08_views", "args": ["--stage", "views"], "share": 0.55,
+             "crash_is_violation": True,
              "what": "per-feature select, flatten, targets, bookkeeping and the three iterators vs the table"},
             {"name": "history", "harness": "c08_views", "args": ["--stage", "history"], "shards": 8, "share": 0.15,
+             "crash_is_violation": True,
              "what": "BFS over drop/shuffle/undrop/unshuffle histories: both views of all features vs the per-feature reference state"},
             {"name": "pairs", "harness": "c08_views", "variant": "asan", "args": ["--stage", "pairs"], "share": 0.1,
              "crash_is_violation": True,
